@@ -192,7 +192,8 @@ def harness(binary, args, timeout=900, stdin=None, env=None):
         e.update(env)
     os.makedirs(RUN, exist_ok=True)
     crumb = os.path.join(RUN, "crumb-%s-%d.json" % (binary, os.getpid()))
-    e["VERIF_CRUMB"] = crumb
+    if not os.environ.get("VERIF_NOCRUMB"):
+        e["VERIF_CRUMB"] = crumb
     p = subprocess.run(["timeout", str(timeout), os.path.join(BIN, binary)] + [str(a) for a in args],
                        stdin=stdin, stdout=subprocess.PIPE, stderr=subprocess.STDOUT, text=True, env=e)
     last = None
@@ -202,6 +203,13 @@ def harness(binary, args, timeout=900, stdin=None, env=None):
         except Exception:
             last = None
         os.remove(crumb)
+    if os.path.exists(crumb + ".txt"):
+        try:
+            vec = open(crumb + ".txt", errors="replace").read().strip()
+            last = dict(last or {}, vector=vec)
+        except Exception:
+            pass
+        os.remove(crumb + ".txt")
     sig = -p.returncode if p.returncode < 0 else (p.returncode - 128 if p.returncode in (132, 134, 135, 136, 139) else None)
     if sig in (4, 6, 7, 8, 11):
         sys.stdout.write(p.stdout[-3000:])
